@@ -76,6 +76,10 @@ class Contract:
     def configs(self):
         return [{}]
 
+    def scopes(self, cfg):
+        """small scopes for refutation (DESIGN 2.7): concrete tensor dimensions"""
+        return [{'default': 2}, {'default': 3}, {'default': 2, 'X.d2': 4, 'X.d0': 3}, {'default': 1, 'X.d2': 3, 'X.d1': 2}]
+
     def cfg_name(self, cfg):
         return ','.join('%s=%s' % (k, cfg[k]) for k in sorted(cfg)) or '-'
 
@@ -134,12 +138,14 @@ class Contract:
             raise SymRaise('ValueError', 'contract:' + self.qualname)
         if not ctx.branch(acc):
             # neither required to raise nor required to return: both are allowed
+            ctx.approx = True
             if ctx.choose(2) == 0:
                 raise SymRaise('ValueError', 'contract:' + self.qualname)
         for nme in self.modifies:
             raise Unsupported("call-site use of a contract with modifies")
         r = self.result(a, cfg)
         if r is NotImplemented:
+            ctx.approx = True
             r = self.fresh_result(a, cfg, fr)
             for label, f in self.post(a, r, cfg):
                 ctx.assume(f)
@@ -150,15 +156,29 @@ class Contract:
 
 
 class ArgFactory:
-    def __init__(self, ctx):
+    def __init__(self, ctx, scope=None):
         self.ctx = ctx
         self.entry = {}
+        self.scope = scope   # small-scope refutation: dict dim-name -> int, 'default' -> int
+
+    def dim(self, name, lo=0):
+        """a tensor dimension: symbolic, or a concrete int under a small scope"""
+        if self.scope is not None:
+            return int(self.scope.get(name, self.scope.get('default', 2)))
+        d = z3.Int(name)
+        self.ctx.assume(d >= lo)
+        return d
+
+    def shape(self, name, rank, lo=0):
+        return [self.dim('%s.d%d' % (name, i), lo) for i in range(rank)]
 
     def assume(self, *cs):
         for c in cs:
             self.ctx.assume(c)
 
     def tensor(self, name, rank, kind='int', lib='torch', shape=None, min_dims=0):
+        if shape is None:
+            shape = self.shape(name, rank, min_dims)
         t = Tn.param(name, rank, kind, lib, shape=shape)
         for d in t.shape:
             if O.is_sym(d):
@@ -169,7 +189,7 @@ class ArgFactory:
         """one-hot tensor by the representation theorem: X[.., c, ..] = [c == idx(..)] with
         0 <= idx < A (allow_zero: idx may be -1 = all-zero column)."""
         if shape is None:
-            shape = [z3.Int('%s.d%d' % (name, i)) for i in range(rank)]
+            shape = self.shape(name, rank, 1)
         for d in shape:
             if O.is_sym(d):
                 self.ctx.assume(d >= 1)
@@ -223,7 +243,7 @@ class FunctionReport:
 MAX_PATHS = 4000
 
 
-def verify_function(world, contract, report=None, only_cfg=None):
+def verify_function(world, contract, report=None, only_cfg=None, scope=None):
     """generate all obligations of one function under contract (all structural configs, all paths)"""
     t0 = time.time()
     rep = report or FunctionReport(contract.qualname)
@@ -252,7 +272,7 @@ def verify_function(world, contract, report=None, only_cfg=None):
             interp = Interp(ctx, world)
             outcome = None
             try:
-                A = ArgFactory(ctx)
+                A = ArgFactory(ctx, scope)
                 args, kwargs = contract.make_args(cfg, A)
                 fd = world.bind.function_ast(pyfn)
                 env = interp.bind_args(fd, pyfn, list(args), dict(kwargs))
